@@ -327,3 +327,174 @@ CONTRACTS.update({
     TF + ':inv_j1': inv_j1_contract, TF + ':inv_j1_rot': inv_j1_rot_contract,
     TF + ':inv_j2plus': inv_j2plus_contract, TF + ':inv_j2plus_rot': inv_j2plus_rot_contract,
 })
+
+
+# ---------------------------------------------------------------------------
+# autograd Functions: layout of the band-pass tensor
+#   6-D tensor obtained from (N,C,H,W) by inserting the orientation axis at
+#   o_dim mod 6 and the real/imaginary axis at ri_dim mod 6: only these two axes
+#   move, the values are those of the default layout (N,C,6,H,W,2).
+# ---------------------------------------------------------------------------
+from .contracts_dwt import int_to_mode_contract
+
+
+def layout_perm(o_dim, ri_dim):
+    o6, r6 = o_dim % 6, ri_dim % 6
+    if o6 == r6:
+        raise Raised('ValueError', 'orientation and real/imaginary axes coincide')
+    others = [d for d in range(6) if d not in (o6, r6)]
+    src = {o6: 2, r6: 5}
+    for pos, s_ in zip(others, (0, 1, 3, 4)):
+        src[pos] = s_
+    return [src[d] for d in range(6)]        # target axis d <- default axis src[d]
+
+
+def to_layout(highr, highi, o_dim, ri_dim):
+    """default-layout real/imag parts (N,C,6,H,W) -> 6-D tensor in the requested layout"""
+    d = t_stack([highr, highi], 5)
+    return t_permute(d, layout_perm(o_dim, ri_dim))
+
+
+def from_layout(highs, o_dim, ri_dim):
+    perm = layout_perm(o_dim, ri_dim)
+    inv = [perm.index(k) for k in range(6)]
+    d = t_permute(highs, inv)                 # back to (N,C,6,H,W,2)
+    return tget(d, (Ellipsis, 0)), tget(d, (Ellipsis, 1))
+
+
+def _zero0(x):
+    return t_zeros((), dtype=x.meta.get('dtype', prims.DT_IN), kind='torch')
+
+
+def FWD_J1_apply_contract(it, x, h0, h1, skip_hps, o_dim, ri_dim, mode):
+    m = int_to_mode_contract(it, mode)
+    ll, hr, hi = fwd_j1_contract(it, x, h0, h1, skip_hps, 2, m)
+    if skip_hps:
+        return ll, _zero0(ll)
+    return ll, to_layout(hr, hi, o_dim, ri_dim)
+
+
+def FWD_J2PLUS_apply_contract(it, x, h0a, h1a, h0b, h1b, skip_hps, o_dim, ri_dim, mode):
+    ll, hr, hi = fwd_j2plus_contract(it, x, h0a, h1a, h0b, h1b, skip_hps, 2, 'symmetric')
+    if skip_hps:
+        return ll, _zero0(ll)
+    return ll, to_layout(hr, hi, o_dim, ri_dim)
+
+
+def _highs_in(highs, o_dim, ri_dim):
+    if _absent(highs):
+        return None, None
+    if highs.ndim != 6:
+        raise Raised('RuntimeError', 'band-pass input must have 6 dimensions')
+    return from_layout(highs, o_dim, ri_dim)
+
+
+def INV_J1_apply_contract(it, lows, highs, g0, g1, o_dim, ri_dim, mode):
+    m = int_to_mode_contract(it, mode)
+    hr, hi = _highs_in(highs, o_dim, ri_dim)
+    return inv_j1_contract(it, lows, hr, hi, g0, g1, 2, 3, 4, m)
+
+
+def INV_J2PLUS_apply_contract(it, lows, highs, g0a, g1a, g0b, g1b, o_dim, ri_dim, mode):
+    hr, hi = _highs_in(highs, o_dim, ri_dim)
+    return inv_j2plus_contract(it, lows, hr, hi, g0a, g1a, g0b, g1b, 2, 3, 4, 'symmetric')
+
+
+CONTRACTS.update({
+    TF + ':FWD_J1.apply': FWD_J1_apply_contract, TF + ':FWD_J2PLUS.apply': FWD_J2PLUS_apply_contract,
+    TF + ':INV_J1.apply': INV_J1_apply_contract, TF + ':INV_J2PLUS.apply': INV_J2PLUS_apply_contract,
+})
+
+
+def sym_filter(name, m, **meta):
+    """prepared level-1 filter tensor whose taps satisfy h[t] == h[m-1-t] (a TABLE fact of C18):
+    both positions refer to the same symbolic tap"""
+    mt = dict(kind='torch', dtype=prims.DT_IN, contig=True, name=name)
+    mt.update(meta)
+
+    def elem(idx):
+        a = idx[2]
+        return GS.atom(name, [simp(z3.If(2 * I(a) <= I(m) - 1, I(a), I(m) - 1 - I(a)))])
+    t = STensor((1, 1, m, 1), elem, meta=mt)
+    t.base.owner = 'arg:' + name
+    return t
+
+
+def rev_filter(name, m, **meta):
+    """tree-b q-shift filter = time reverse of tree a (a TABLE fact of C18): entry a is tap m-1-a of `name`"""
+    mt = dict(kind='torch', dtype=prims.DT_IN, contig=True, name=name + '(reversed)')
+    mt.update(meta)
+    t = STensor((1, 1, m, 1), lambda idx: GS.atom(name, [simp(I(m) - 1 - I(idx[2]))]), meta=mt)
+    t.base.owner = 'arg:' + name + '_b'
+    return t
+
+
+# ---------------------------------------------------------------------------
+# ABSTRACT 1-D operators (glue mode): a column/row operation is replaced by a
+# generic linear operator along one axis whose kernel is an uninterpreted
+# two-index array, named by (operation, filter names, flag, axis, extents).  Only
+# what the 1-D lemmas establish is built in:
+#   colfilter(., h) with symmetric odd h is self-adjoint        -> symmetric kernel
+#   colifilt(., P, Q, hp) == coldfilt(., Q, P, hp)^T (Q=rev P)   -> same array, indices swapped
+# Identities proved with these hold for every operator with those properties,
+# independently of filter lengths and image sizes.
+# ---------------------------------------------------------------------------
+def _fname(h):
+    n = h.meta.get('name')
+    if not n:
+        raise Unsupported('abstract operator: unnamed filter')
+    return n.replace('(reversed)', '~')
+
+
+def _abs_axis(kind, d):
+    def contract(it, X, *a, **k):
+        c = ctx()
+        if kind == 'f':
+            h = a[0]
+            mode = a[1] if len(a) > 1 else k.get('mode', 'symmetric')
+        else:
+            ha, hb = a[0], a[1]
+            highpass = a[2] if len(a) > 2 else k.get('highpass', False)
+            mode = a[3] if len(a) > 3 else k.get('mode', 'symmetric')
+        if X is None:
+            raise Raised('AttributeError', "'NoneType' object has no attribute 'device'")
+        if _is0dim(X):
+            return _zeros1111()
+        read, R, Nn = _axis(X, d)
+        Bn, Cc = X.shape[0], X.shape[1]
+        ax = 'v' if d == 2 else 'h'
+        if kind == 'f':
+            m = h.shape[2]
+            c.require('abstract-colfilter-pre:odd filter length', I(m) % 2 == 1)
+            No = Nn
+            nm = 'K:F[%s,%s]%s' % (_fname(h), 'sym' if mode == 'symmetric' else 'zero', ax)
+            idxf = lambda i, j: [simp(z3.If(I(i) <= I(j), I(i), I(j))), simp(z3.If(I(i) <= I(j), I(j), I(i)))]
+        elif kind == 'd':
+            if c.decide(I(Nn) % 4 != 0):
+                raise Raised('ValueError', 'No. of rows/cols in X must be a multiple of 4')
+            No = simp(I(Nn) / 2)
+            nm = 'K:D[%s,%s,%s]%s' % (_fname(ha), _fname(hb), highpass, ax)
+            idxf = lambda i, j: [i, j]
+        else:
+            if c.decide(I(Nn) % 2 != 0):
+                raise Raised('ValueError', 'No. of rows/cols in X must be a multiple of 2')
+            No = simp(2 * I(Nn))
+            nm = 'K:D[%s,%s,%s]%s' % (_fname(hb), _fname(ha), highpass, ax)
+            idxf = lambda i, j: [j, i]
+
+        def elem(idx):
+            n_, c_, p_, q_ = idx
+            i, r = (p_, q_) if d == 2 else (q_, p_)
+            j = fresh_int('s')
+            return (GS.atom(nm, idxf(i, j)) * read(n_, c_, r, j)).bind(j, 0, Nn)
+        shape = (Bn, Cc, No, X.shape[3]) if d == 2 else (Bn, Cc, X.shape[2], No)
+        return fresh_like(shape, elem, X)
+    return contract
+
+
+ABSTRACT = {
+    'dtcwt.lowlevel:colfilter': _abs_axis('f', 2), 'dtcwt.lowlevel:rowfilter': _abs_axis('f', 3),
+    'dtcwt.lowlevel:coldfilt': _abs_axis('d', 2), 'dtcwt.lowlevel:rowdfilt': _abs_axis('d', 3),
+    'dtcwt.lowlevel:colifilt': _abs_axis('i', 2), 'dtcwt.lowlevel:rowifilt': _abs_axis('i', 3),
+    'dtcwt.lowlevel:q2c': q2c_contract, 'dtcwt.lowlevel:c2q': c2q_contract,
+}
